@@ -6,7 +6,7 @@
    default binder, literal folding and sugar vs spelled-out literals concern the
    wbnf parser and the compiler (syntax/compile.go), which are not modelled: they
    are decided by the metamorphic run original-vs-rewritten on the implementation. *)
-From Arrai Require Import Base.Val Spec.SetAlg Eval.Interp Proofs.EquivP.
+From Arrai Require Import Base.Val Spec.SetAlg Eval.Interp Proofs.EquivP Proofs.FuelP.
 
 Theorem C08_let_is_arrow :
   forall fuel rho p e1 e2,
@@ -55,3 +55,19 @@ Print Assumptions C08_let_bound_name_denotes_its_value.
 Example C08_probe :
   run_data 30 (EAnd (ELit (VSet [])) (EDot (ELit (vint 1)) [97])) = Ok (VSet []).
 Proof. vm_compute. reflexivity. Qed.
+
+(* the three spellings of a binding have one answer - value, error or out of fragment -
+   whatever fuel each is run with (fuel only decides whether there is an answer yet) *)
+Theorem C08_binding_forms_same_answer :
+  forall n m rho p e1 e2 X Y,
+    In X [ELet p e1 e2; EArrow e1 (EFn p e2); ECall (EFn p e2) e1] ->
+    In Y [ELet p e1 e2; EArrow e1 (EFn p e2); ECall (EFn p e2) e1] ->
+    eval n rho X <> OutOfFuel -> eval m rho Y <> OutOfFuel -> eval n rho X = eval m rho Y.
+Proof. exact binding_forms_same_answer. Qed.
+Print Assumptions C08_binding_forms_same_answer.
+
+(* the meaning of an expression is independent of the fuel *)
+Theorem C08_meaning_independent_of_fuel :
+  forall n m rho e, eval n rho e <> OutOfFuel -> eval m rho e <> OutOfFuel -> eval n rho e = eval m rho e.
+Proof. exact eval_fuel_independent. Qed.
+Print Assumptions C08_meaning_independent_of_fuel.
